@@ -241,7 +241,11 @@ def random_history(seed, net="regtest", nblocks=14, thr=None, full=True, diffs=N
                     nxt.insert(rng.randint(0, len(nxt)), item(rng.choice(list(w.blocks.keys())), rng.choice(HEADER_DEFECTS + ["valid", "long"])))
                 y = rng.random()
                 if y < 0.12 and len(batch) == 1:
-                    cmds.append({"c": "offer", "initial": {"k": "partial", "item": item(batch[0]), "pages": rng.choice([0, 1, 2, 3, 5]), "next": nxt}})
+                    off = {"k": "partial", "item": item(batch[0]), "pages": rng.choice([0, 1, 2, 3, 5]), "next": nxt}
+                    if off["pages"] and rng.random() < 0.5:
+                        # arbitrary split points: coinciding cuts, cuts at the very start or end = empty pages
+                        off["cuts"] = sorted(rng.choice([0, 0, 1, 40, 80, 80, 81, 150, 1000000, 1000000]) for _ in range(off["pages"]))
+                    cmds.append({"c": "offer", "initial": off})
                 elif y < 0.18:
                     cmds.append({"c": "offer", "initial": {"k": "reject"}})
                     cmds.append({"c": "offer", "initial": complete(items, nxt)})
